@@ -13,6 +13,7 @@ import gv
 PROP = "C19"
 REQ_PROPS = ["GV.Props.Props_C19"]
 REQ_RUN = ["GV.Algo.Run"]
+BINS = ["c19"]
 
 TRUSTED = [
     "Coq 8.16.1 kernel (coqc; vm_compute runs the certificate checkers; no native_compute)",
